@@ -17,6 +17,7 @@ ToksWfSc  == {Tok("t", 1), Tok("ob", 3), Tok("cb", 4), Tok("sc", 5)}      \* bol
 ToksDel   == {Tok("t", 1), Tok("d", 1)}                                  \* the source lacks parts of the plain text
 ToksDelTag == {Tok("t", 1), Tok("d", 1), Tok("oi", 3), Tok("ci", 4)}      \* ... and has tags (never next to a deletion:
                                                                          \*  the order of "-" and "+" in a diff script is the engine's choice)
+ToksWfDiv == {Tok("t", 1), Tok("od", 5), Tok("cd", 6), Tok("oi", 3), Tok("ci", 4)}   \* <div> elements: the name of the balance test's own wrapper
 ToksText  == {Tok("t", 1), Tok("t", 2), Tok("w", 1), Tok("w", 2), Tok("oi", 3), Tok("ci", 4)}
 
 (* stack of open tags after a prefix (only called on prefixes that nest properly) *)
